@@ -365,12 +365,20 @@ def lint_usage_loop(run, twin=None):
     class Src(object):
         tree = None
 
-    class QI(object):
+    class QI(set):
+        """qualified_imports: a real set that also remembers the order in which names were put in"""
         def __init__(self):
+            set.__init__(self)
             self.added = []
 
         def add(self, x):
             self.added.append(x)
+            set.add(self, x)
+
+        def update(self, *others):
+            for o in others:
+                for x in o:
+                    self.add(x)
 
     class EmptyNames(object):
         all_names = []
